@@ -16,10 +16,10 @@ using vc::g_stats;
 static vc::Args A;
 
 struct Step { char kind; size_t n; }; // '>' n bytes of the request stream, '<' n bytes of the response stream, 'D', 'F'
-struct Case { int pers = 2, auto_destroy = 0; std::string rq, rs; std::vector<size_t> rq_starts, rs_starts; /* first byte of request j / of the first response message of pair j */ std::vector<Step> steps; };
+struct Case { std::string plan; /* "hook:nth:rc[,...]" callback return plan, only generated for --mode c05 / c09 (the pairing oracle assumes callbacks that return OK) */ int pers = 2, auto_destroy = 0; std::string rq, rs; std::vector<size_t> rq_starts, rs_starts; /* first byte of request j / of the first response message of pair j */ std::vector<Step> steps; };
 
 static std::string case_text(const Case &c) {
-    std::string s = "c04 " + std::to_string(c.pers) + " " + std::to_string(c.auto_destroy) + "\nreq " + vc::hex(c.rq) + "\nres " + vc::hex(c.rs) + "\nreqstarts";
+    std::string s = "c04 " + std::to_string(c.pers) + " " + std::to_string(c.auto_destroy) + (c.plan.empty() ? "" : " " + c.plan) + "\nreq " + vc::hex(c.rq) + "\nres " + vc::hex(c.rs) + "\nreqstarts";
     for (size_t x : c.rq_starts) s += " " + std::to_string(x); s += "\nresstarts"; for (size_t x : c.rs_starts) s += " " + std::to_string(x);
     s += "\nsteps"; for (auto &st : c.steps) s += std::string(" ") + st.kind + std::to_string(st.n);
     s += "\n# req \"" + vc::esc(c.rq, 700) + "\"\n# res \"" + vc::esc(c.rs, 700) + "\"\n";
@@ -30,7 +30,7 @@ struct Obs { std::vector<std::pair<std::string, std::string>> completes; /* (req
 static thread_local Obs *g_obs;
 
 static std::pair<std::string, std::string> run_case(const Case &c, bool *outstanding2) {
-    vdrv::Config cfg; cfg.personality = c.pers; cfg.auto_destroy = c.auto_destroy; vdrv::Plan p; vdrv::Options o; o.dump = false; o.keep_data = false;
+    vdrv::Config cfg; cfg.personality = c.pers; cfg.auto_destroy = c.auto_destroy; vdrv::Plan p; if (!c.plan.empty()) p.parse_kv("plan", c.plan); vdrv::Options o; o.dump = false; o.keep_data = false;
     vdrv::Session ss(cfg, p, o);
     Obs obs; g_obs = &obs;
     ss.observer = [](vdrv::Session *, const vdrv::Event &e, htp_tx_t *tx) {
@@ -57,6 +57,7 @@ static std::pair<std::string, std::string> run_case(const Case &c, bool *outstan
     auto inner = [&]() -> std::pair<std::string, std::string> {
     for (auto &v : r.violations) if (v.rfind("C09:handover_livelock", 0) == 0) return {"handover_livelock", v};
     if (A.mode == "c09") for (auto &v : r.violations) if (v.rfind("C09:", 0) == 0) return {"monitor:" + v.substr(4), "API-contract monitor: " + v};
+    if (A.mode == "c09" && !c.plan.empty()) return {"", ""}; // with callbacks that stop the stream only the API-contract monitor applies, not the pairing of every request
     if (A.mode == "c05") { for (auto &v : r.violations) if (v.rfind("C05:", 0) == 0) return {v.substr(4), "lifecycle monitor: " + v}; return {"", ""}; } // --mode c05: only the lifecycle automaton counts
     if (obs.completes.size() != N) { std::string s; for (auto &kv : obs.completes) s += kv.first + "<->" + kv.second + " "; return {"transaction_complete_count", std::to_string(obs.completes.size()) + " TRANSACTION_COMPLETE events for " + std::to_string(N) + " pairs: " + s}; }
     for (size_t i = 0; i < N; i++) {
@@ -85,8 +86,14 @@ static void campaign() {
     int cases = A.thorough() ? 100000 : 20000;
     hg::Opts o; o.max_pairs = A.thorough() ? 12 : 8; o.max_body = 40;
     rcx::run("pairing_under_pipelining", vc::mix(A.seed * 197 + A.shard), cases, 60, [&]() -> std::optional<rcx::Fail> {
-        hg::Exchange x = hg::gen_exchange(o);
+        hg::Exchange x = hg::gen_exchange(o); bool c103 = false;
         Case c; c.pers = rcx::range(0, 9); c.auto_destroy = rcx::coin();
+        if ((A.mode == "c05" || A.mode == "c09") && rcx::chance(1, 3)) { // one or two callbacks return STOP / ERROR / DECLINED at a generated invocation
+            static const int HK[] = {vdrv::H_REQ_LINE, vdrv::H_REQ_HEADERS, vdrv::H_REQ_BODY, vdrv::H_REQ_COMPLETE, vdrv::H_RES_LINE, vdrv::H_RES_HEADERS, vdrv::H_RES_BODY, vdrv::H_RES_COMPLETE, vdrv::H_TX_COMPLETE, vdrv::H_REQ_START, vdrv::H_RES_START};
+            static const int RC[] = {HTP_STOP, HTP_ERROR, HTP_DECLINED}; int nr = rcx::range(1, 2);
+            for (int i = 0; i < nr; i++) c.plan += std::string(i ? "," : "") + std::to_string(HK[rcx::range(0, 10)]) + ":" + std::to_string(rcx::range(0, 3)) + ":" + std::to_string(RC[rcx::range(0, 2)]); }
+        if (A.mode == "c05" && rcx::chance(1, 8)) { // informational responses other than 100 in front of a final answer (they are responses of their own for this library)
+            size_t k = (size_t)rcx::range(0, (int)x.res.size() - 1); hg::Msg im; im.req = false; im.interim = true; /* scheduled like an interim message of the same pair */ im.version = "HTTP/1.1"; im.status = rcx::coin() ? "103" : "102"; im.reason = "Early Hints"; hg::Hdr h; h.name = "Link"; h.lines.push_back(" </x>; rel=preload"); im.headers.push_back(h); im.framing = hg::F_NONE; im.tag = "i"; x.res.insert(x.res.begin() + (long)k, im); c103 = true; (void)c103; }
         // "Expect: 100-continue" answered with a final 4xx: the client withholds the announced body and goes on with its next
         // request (RFC 7231 5.1.1). Such a pair adds a constraint to the interleaving: nothing of request j+1 before response j.
         std::vector<bool> withheld(x.req.size(), false);
@@ -140,7 +147,7 @@ static int replay(const std::string &path) {
     while (p < f.size()) {
         size_t e = f.find('\n', p); if (e == std::string::npos) e = f.size(); std::string l = f.substr(p, e - p); p = e + 1;
         auto nums = [&](const char *s, std::vector<size_t> &v) { char *end; for (;;) { long n = strtol(s, &end, 10); if (end == s) break; v.push_back((size_t)n); s = end; } };
-        if (l.rfind("c04 ", 0) == 0) sscanf(l.c_str() + 4, "%d %d", &c.pers, &c.auto_destroy);
+        if (l.rfind("c04 ", 0) == 0) { char pl[256] = ""; sscanf(l.c_str() + 4, "%d %d %255s", &c.pers, &c.auto_destroy, pl); c.plan = pl; }
         else if (l.rfind("req ", 0) == 0) c.rq = vc::unhex(l.substr(4)); else if (l.rfind("res ", 0) == 0) c.rs = vc::unhex(l.substr(4));
         else if (l.rfind("reqstarts", 0) == 0) nums(l.c_str() + 9, c.rq_starts); else if (l.rfind("resstarts", 0) == 0) nums(l.c_str() + 9, c.rs_starts);
         else if (l.rfind("steps", 0) == 0) { size_t q = 5; while (q < l.size()) { while (q < l.size() && l[q] == ' ') q++; if (q >= l.size()) break; char k = l[q++]; size_t n = strtoul(l.c_str() + q, nullptr, 10); while (q < l.size() && l[q] != ' ') q++; c.steps.push_back({k, n}); } }
